@@ -139,6 +139,32 @@ def apalache_merge_lemma(chk):
         chk.violations.append({"kind": "model", "clause": "ApaMerge.Lemma", "replay": os.path.join(tlc.SPEC, "apalache", "ApaMerge.tla")})
 
 
+def apalache_add_invariant(chk):
+    """extra (never the basis of the claimed level): Apalache proves that the per-pair invariant behind C03 / C05
+    (canonical timeline, '+' exactly at the run starts, '-' only at run ends + 1, long runs closed) is inductive for the
+    model's add_interaction over unbounded integers (spec/apalache/ApaAdd.tla), with and without the pinned KF1 rule"""
+    import shutil
+    import subprocess
+    out = os.path.join(OUT, "tmp", "apa_add_%d" % os.getpid())
+    verdicts = []
+    try:
+        for args in (["--init=IndInit", "--inv=IndInv", "--length=1"], ["--init=Init", "--inv=IndInv", "--length=0"]):
+            p = subprocess.run(["apalache-mc", "check", "--cinit=CInit", "--next=Next"] + args + ["--out-dir=" + out, "ApaAdd.tla"],
+                               cwd=os.path.join(tlc.SPEC, "apalache"), stdout=subprocess.PIPE, stderr=subprocess.STDOUT,
+                               text=True, timeout=900)
+            verdicts.append("NoError" if "The outcome is: NoError" in p.stdout else
+                            ("Error" if "The outcome is: Error" in p.stdout else "did not run"))
+    except Exception as ex:  # noqa: B902
+        verdicts.append("did not run: %s" % type(ex).__name__)
+    shutil.rmtree(out, ignore_errors=True)
+    chk.extra["apalache_add_inductive_invariant"] = {
+        "module": "spec/apalache/ApaAdd.tla", "outcome": verdicts,
+        "scope": "IndInv /\\ Add => IndInv' (length 1 from any state satisfying IndInv) and Init => IndInv; unbounded integers, "
+                 "timelines of up to 5 intervals, Strict in {TRUE, FALSE}"}
+    if "Error" in verdicts:
+        chk.violations.append({"kind": "model", "clause": "ApaAdd.IndInv", "replay": os.path.join(tlc.SPEC, "apalache", "ApaAdd.tla")})
+
+
 def sim_stage(chk, rng, modes_wanted, num):
     """beyond the exhaustive bounds: TLC -simulate behaviours of the model (4 nodes with self-loops, instants 0..8,
     invariants checked along the way) are replayed into the real classes and validated"""
@@ -241,6 +267,8 @@ def run(prop, tier, seed):
         sim_stage(chk, rng, modes_wanted, 25)
         if prop in ("C01", "C03"):
             apalache_merge_lemma(chk)
+        if prop in ("C03", "C05"):
+            apalache_add_invariant(chk)
     chk.extra["bounded_states_replayed"] = n_states
     chk.extra["state_action_pairs_replayed"] = n_edges
     chk.assumptions = [
